@@ -34,6 +34,7 @@ def AcceptCond (s : St) (ev : Ev) (u : Nat) : Prop :=
 
 structure InvU (cfg : Cfg) (u : Nat) (can lg sp sp2 : Prop) (s : St) : Prop where
   nrecv : s.prog (.U u) ≠ .recvWait u
+  nidle : alive (s.status (.U u)) = true → s.prog (.U u) = .loginWait u ∨ s.prog (.U u) = .inClose
   cont : ∀ r, contOf s.cstage = some (.userTail u r) → r = .refused ∨ (r = .cancelled ∧ can)
   rets : Before (PRet cfg u) s.trace
   failed : (Obs.ret u .refused ∈ s.trace ∨ Obs.ret u .cancelled ∈ s.trace) → s.closed = true
@@ -65,7 +66,7 @@ theorem InvU.ext {s s' : St} (i : InvU cfg u can lg sp sp2 s) (l : List Obs)
     (hq : s.qClosed = true → s'.qClosed = true)
     (hv : s.status (.U u) = .ready → s.prog (.U u) = .loginWait u → s'.vres = none → s.vres = none) :
     InvU cfg u can lg sp sp2 s' := by
-  refine ⟨by rw [hp]; exact i.nrecv, by rw [hc]; exact i.cont, ?_, ?_, ?_, by rw [hs]; exact i.called, ?_, by rw [hs]; exact i.ncan,
+  refine ⟨by rw [hp]; exact i.nrecv, by rw [hs, hp]; exact i.nidle, by rw [hc]; exact i.cont, ?_, ?_, ?_, by rw [hs]; exact i.called, ?_, by rw [hs]; exact i.ncan,
     ?_, ?_, ?_, ?_, by rw [hs, hp]; exact i.spent2⟩
   · rw [htr]; exact before_append i.rets (fun o ho l' r e => absurd e (hl o ho r))
   · rw [htr]; intro h
@@ -178,7 +179,7 @@ theorem InvU.close {s s' : St} {ab : Bool} {t : Tid} {c : Cont} (i : InvU cfg u 
   -- `u`'s own status and program
   have hother : Tid.U u ≠ t → s'.status (.U u) = s.status (.U u) ∧ s'.prog (.U u) = s.prog (.U u) :=
     fun h => e.other (.U u) h (stageOf_user u)
-  refine ⟨?_, ?_, ?_, fun _ => hcl, ?_, ?_, ?_, ?_, fun _ _ => Or.inl hq, fun _ _ _ => Or.inl hq, ?_, ?_, ?_⟩
+  refine ⟨?_, ?_, ?_, ?_, fun _ => hcl, ?_, ?_, ?_, ?_, fun _ _ => Or.inl hq, fun _ _ _ => Or.inl hq, ?_, ?_, ?_⟩
   · by_cases htu : Tid.U u = t
     · subst htu
       rcases e.sprog with h | h | h | h
@@ -187,6 +188,15 @@ theorem InvU.close {s s' : St} {ab : Bool} {t : Tid} {c : Cont} (i : InvU cfg u 
       · simp at h
       · simp at h
     · rw [(hother htu).2]; exact i.nrecv
+  · intro hal'
+    by_cases htu : Tid.U u = t
+    · subst htu
+      rcases e.sprog with h | h | h | h
+      · rw [h]; exact i.nidle hst
+      · exact Or.inr h
+      · simp at h
+      · simp at h
+    · rw [(hother htu).1] at hal'; rw [(hother htu).2]; exact i.nidle hal'
   · intro r hr
     rcases hstage with h | h | h
     · rw [h] at hr; exact i.cont r hr
@@ -309,7 +319,13 @@ theorem InvU.finish {s : St} (i : InvU cfg u can lg sp sp2 s) {t : Tid} (hne : t
   have hun : Tid.U u ≠ t := fun e => hne e.symm
   have hst : (s.finish t).status (.U u) = if s.status (.U u) = .waitT t then .ready else s.status (.U u) := by
     rw [finish_status]; simp [hun]
-  refine ⟨i.nrecv, i.cont, i.rets, i.failed, ?_, ?_, ?_, ?_, ?_, ?_, i.rcan, i.spent1, ?_⟩
+  refine ⟨i.nrecv, ?_, i.cont, i.rets, i.failed, ?_, ?_, ?_, ?_, ?_, ?_, i.rcan, i.spent1, ?_⟩
+  · intro h
+    apply i.nidle
+    rw [hst] at h
+    split at h
+    · rename_i hw'; rw [hw']; rfl
+    · exact h
   · intro h
     obtain ⟨a1, a2⟩ := i.hb h
     exact ⟨fun e => a1 (absent_of_finish e), fun e => a2 (absent_of_finish e)⟩
@@ -388,7 +404,8 @@ theorem InvU.self_refused {s s1 : St} (i : InvU cfg u can lg sp sp2 s) (b : InvB
     intro y _ e
     have := absent_of_finish e
     rw [hst] at this; exact this
-  refine ⟨by show s1.prog _ ≠ _; rw [h2]; exact i.nrecv, by show ∀ r, contOf s1.cstage = _ → _; rw [h4]; exact i.cont, ?_,
+  refine ⟨by show s1.prog _ ≠ _; rw [h2]; exact i.nrecv, by rw [hdone]; intro h; simp [alive] at h,
+    by show ∀ r, contOf s1.cstage = _ → _; rw [h4]; exact i.cont, ?_,
     fun _ => by show s1.closed = true; rw [h5]; exact hcl, ?_, fun _ => hlg, fun _ _ => by rw [hdone]; simp,
     by rw [hdone]; simp, by rw [hdone]; simp, by rw [hdone]; simp, ?_, ?_, ?_⟩
   · show Before _ s1.trace
@@ -436,7 +453,8 @@ theorem InvU.accept {s s2 : St} (i : InvU cfg u can lg sp sp2 s) (a : InvA cfg s
       · simp at h
     · injection h with _ h; exact Or.inr h
   have hbusy : s.rcvBusy = true := w.busy u ⟨hal, Or.inl hp⟩
-  refine ⟨by show s2.prog _ ≠ _; rw [e1]; exact i.nrecv, by show ∀ r, contOf s2.cstage = _ → _; rw [e2]; exact i.cont, ?_, ?_, ?_,
+  refine ⟨by show s2.prog _ ≠ _; rw [e1]; exact i.nrecv, by rw [hdone]; intro h; simp [alive] at h,
+    by show ∀ r, contOf s2.cstage = _ → _; rw [e2]; exact i.cont, ?_, ?_, ?_,
     fun _ => hlg, fun _ _ => by rw [hdone]; simp, by rw [hdone]; simp, by rw [hdone]; simp, by rw [hdone]; simp, ?_,
     fun h => absurd h hsp, fun _ => by rw [hdone]; exact ⟨by simp, Or.inr rfl⟩⟩
   · rw [htr]
@@ -497,10 +515,10 @@ theorem stepReader_U {s : St} (a : InvA cfg s) (b : InvB s) (i : InvU cfg u can 
           (by rw [f2]) (f3 _ (by simp) (by simp)) (by rw [f4]) (by rw [f5]; exact id) (by rw [f3 .L (by simp) (by simp)]; exact id)
           (by rw [f3 .M (by simp) (by simp)]; exact id) (fun _ h => Or.inl (f8 h)) (by rw [f6]; exact id) (by rw [f7]; exact fun _ _ h => h)
       · iu i
-      · exact i.enter (s := { s with buf := _, consumed := _ }) rfl rfl rfl rfl (c := .readerTail) rfl (by simp) hst (by simp)
-          (enterClose_spec (c := .readerTail) (p.same rfl rfl rfl) rfl)
-      · exact i.enter (s := { s with buf := _, consumed := _ }) rfl rfl rfl rfl (c := .readerTail) rfl (by simp) hst (by simp)
-          (enterClose_spec (c := .readerTail) (p.same rfl rfl rfl) rfl)
+      · refine i.enter ?_ ?_ ?_ ?_ (c := .readerTail) rfl (by simp) ?_ (by simp) (enterClose_spec (c := .readerTail) ?_ rfl) <;>
+          first | rfl | exact hst | exact p.same rfl rfl rfl
+      · refine i.enter ?_ ?_ ?_ ?_ (c := .readerTail) rfl (by simp) ?_ (by simp) (enterClose_spec (c := .readerTail) ?_ rfl) <;>
+          first | rfl | exact hst | exact p.same rfl rfl rfl
 
 theorem InvU.initiateClose {s : St} (i : InvU cfg u can lg sp sp2 s) : InvU cfg u can lg sp sp2 s.initiateClose := by
   unfold St.initiateClose
@@ -626,5 +644,512 @@ theorem loginResume_U {s : St} {sd lo : Prop} (a : InvA cfg s) (b : InvB s) (w :
       · exact i.other_leave' b hxu _
       · exact i.enter (s := ({ s with rcvBusy := false } : St)) rfl rfl rfl rfl (c := .userTail x .cancelled) rfl (hcx _) hst
           (by intro e; exact absurd e hne) (enterClose_spec (p.same rfl rfl rfl) rfl)
+
+/-- a cancellation is delivered to `u` at its `login()` receive: it runs again (then closes the session and re-raises) -/
+theorem InvU.wake_cancelled {s s1 : St} (i : InvU cfg u can lg sp sp2 s) (hst : s.status (.U u) = .cancelled)
+    (h : uv u s1 = (s.trace, s.prog (.U u), .ready, contOf s.cstage, s.closed, s.status .L, s.status .M, s.status .V, s.qClosed,
+      s1.vres)) : InvU cfg u can lg sp sp2 s1 := by
+  simp only [uv, Prod.mk.injEq] at h
+  obtain ⟨h1, h2, h3, h4, h5, h6, h7, h8, h9, _⟩ := h
+  have hcan : can := i.ncan hst
+  have hal : alive (s.status (.U u)) = true := by rw [hst]; rfl
+  refine ⟨by rw [h2]; exact i.nrecv, by rw [h2]; intro _; exact i.nidle hal, by rw [h4]; exact i.cont, by rw [h1]; exact i.rets,
+    by rw [h1, h5]; exact i.failed, by rw [h1, h6, h7]; exact i.hb, fun _ => i.called (by rw [hst]; simp),
+    by rw [h3]; intro _ _; simp, fun _ => hcan, fun _ _ => Or.inr hcan, fun _ _ _ => Or.inr hcan, fun _ => hcan,
+    by rw [h1]; exact i.spent1, ?_⟩
+  intro hsp
+  obtain ⟨_, a2⟩ := i.spent2 hsp
+  rw [h3, h2]
+  refine ⟨by simp, Or.inl ?_⟩
+  rcases a2 with a2 | a2
+  · exact a2
+  · rw [hst] at a2; simp at a2
+
+theorem stepRun_U {s : St} {sd lo : Prop} (a : InvA cfg s) (b : InvB s) (w : InvW s) (tt : InvT cfg sd lo s)
+    (i : InvU cfg u can lg sp sp2 s) (t : Tid) (hsp : sp → ¬ AcceptCond s (.run t) u) :
+    InvU cfg u can lg sp sp2 (stepRun cfg s t) := by
+  unfold stepRun
+  have i0 : InvU cfg u can lg sp sp2 ({ s with imm := none } : St) := by iu i
+  have w0 : InvW ({ s with imm := none } : St) := by iw w
+  have t0 : InvT cfg sd lo ({ s with imm := none } : St) := by it tt
+  have b0 : InvB ({ s with imm := none } : St) := InvB.of_bcore (s := s) rfl b
+  have a0 : InvA cfg ({ s with imm := none } : St) := InvA.of_core (s := s) rfl a
+  have hsp0 : sp → ¬ AcceptCond ({ s with imm := none } : St) (.run t) u := hsp
+  generalize ({ s with imm := none } : St) = s0 at i0 a0 w0 b0 t0 hsp0
+  simp only
+  split
+  · -- cancelled
+    rename_i hst
+    have hal : alive (s0.status t) = true := by rw [hst]; rfl
+    have htyp := b0.typ t hal
+    split
+    · rename_i n k hp
+      have htD : t = .D := allowed_handler (by rw [hp] at htyp; exact htyp)
+      subst htD
+      exact InvU.finish (s := s0.emit (.msgAbandon n)) (by iu i0) (by simp) (fun h => waits_of_invB b0 h) (by simp)
+    · rename_i hp
+      have htV : t = .V := allowed_vget (by rw [hp] at htyp; exact htyp)
+      subst htV
+      exact i0.finish (by simp) (fun _ => Or.inl rfl) (fun _ h1 _ => i0.vcan h1 hst)
+    · rename_i x hp
+      have htx : t = .U x := allowed_recvWait (by rw [hp] at htyp; exact htyp)
+      subst htx
+      have hxu : x ≠ u := by intro e; subst e; exact i0.nrecv hp
+      split
+      · exact i0.other_leave b0 w0 ⟨hal, Or.inr hp⟩ hxu _ _
+      · exact i0.other_leave b0 w0 ⟨hal, Or.inr hp⟩ hxu _ _
+    · rename_i x hp
+      have htx : t = .U x := allowed_loginWait (by rw [hp] at htyp; exact htyp)
+      subst htx
+      have hrx : rcving s0 x := ⟨hal, Or.inl hp⟩
+      by_cases hxu : x = u
+      · subst hxu
+        split
+        · rename_i hq
+          exact i0.self_refused b0 hal (w0.qc hq)
+            (s1 := ({ s0 with vres := none, rcvBusy := false, gone := _ } : St).emit (.ret x .refused)) rfl rfl
+        · have hcan : can := i0.ncan hst
+          have i1 : InvU cfg x can lg sp sp2
+              (({ s0 with vres := none, rcvBusy := false, gone := s0.gone ++ s0.vres.toList.map (fun n => (n, false)) } : St).setStatus (.U x) .ready) :=
+            i0.wake_cancelled hst (by simp [uv, St.setStatus])
+          exact i1.enter rfl rfl rfl rfl (c := .userTail x .cancelled) rfl
+            (by intro r e; injection e with _ e; exact Or.inr ⟨e.symm, hcan⟩) (by simp [St.setStatus])
+            (by intro _; show s0.prog _ ≠ _; rw [hp]; simp)
+            (enterClose_spec (ClosePre.of_cancelled a0 b0 (c := .userTail x .cancelled) rfl (stageOf_user x) rfl rfl (fun _ => rfl)) rfl)
+      · have hne : Tid.U x ≠ Tid.U u := by intro e; injection e with e; exact hxu e
+        have hnr := not_resuming (u := u) w0 hrx hxu
+        split
+        · exact i0.other_leave b0 w0 hrx hxu _ _
+        · have i1 : InvU cfg u can lg sp sp2
+              (({ s0 with vres := none, rcvBusy := false, gone := s0.gone ++ s0.vres.toList.map (fun n => (n, false)) } : St).setStatus (.U x) .ready) :=
+            i0.ext [] (by simp [St.setStatus]) (uboring_nil u) rfl (by simp [St.setStatus, Ne.symm hne]) rfl id
+              (by simp [St.setStatus]) (by simp [St.setStatus]) (fun _ h => Or.inl (by simpa [St.setStatus] using h)) id
+              (fun h1 h2 _ => absurd ⟨h1, h2⟩ hnr)
+          exact i1.enter rfl rfl rfl rfl (c := .userTail x .cancelled) rfl
+            (by intro r e; injection e with e _; exact absurd e hxu) (by simp [St.setStatus])
+            (by intro e; exact absurd e hne)
+            (enterClose_spec (ClosePre.of_cancelled a0 b0 (c := .userTail x .cancelled) rfl (stageOf_user x) rfl rfl (fun _ => rfl)) rfl)
+    · rename_i hp
+      rcases stepInClose_spec (cfg := cfg) b0 t true (Or.inr hst) (by simp) with h | ⟨c, hc, hcok, e, f⟩
+      · rw [h]; exact i0
+      · exact i0.ce a0 hc hcok hal hp (fun _ => hst) e f
+    · rename_i h1 h2 h3 h4 h5
+      have hne : t ≠ .U u := by
+        intro e; subst e
+        rcases i0.nidle hal with h | h
+        · exact h4 u h
+        · exact h5 h
+      exact i0.finish hne (fun h => waits_of_invB b0 h) (by intro e; subst e; intro h1' _; exact i0.vcan h1' hst)
+  · -- ready
+    rename_i hst
+    have hal : alive (s0.status t) = true := by rw [hst]; rfl
+    have htyp := b0.typ t hal
+    split
+    · split
+      · rename_i htR; subst htR; exact stepReader_U a0 b0 i0 hst
+      · exact i0
+    · split
+      · rename_i htD; subst htD; exact stepDisp_U a0 b0 i0 hst
+      · exact i0
+    · rename_i n k hp
+      have htD : t = .D := allowed_handler (by rw [hp] at htyp; exact htyp)
+      subst htD
+      split
+      · iu i0
+      · iu i0
+    · rename_i hp
+      rcases allowed_monStart (by rw [hp] at htyp; exact htyp) with h | h <;> subst h <;> iu i0
+    · split
+      · rename_i htL; subst htL
+        unfold stepMon; simp only [if_true]; split
+        · iu i0
+        · iu i0
+      · split
+        · rename_i htM; subst htM; exact stepMon_U a0 b0 i0 false hst
+        · exact i0
+    · rename_i c hp
+      obtain ⟨htC, hcc⟩ := allowed_closeEntry (by rw [hp] at htyp; exact htyp)
+      subst htC; subst hcc
+      exact i0.enter rfl rfl rfl rfl (c := .closingTail) rfl (by simp) hst (by simp)
+        (enterClose_spec (ClosePre.of_inv a0 b0 hst (c := .closingTail) rfl) rfl)
+    · rename_i hp
+      rcases stepInClose_spec (cfg := cfg) b0 t false (Or.inl hst) (fun _ => hst) with h | ⟨c, hc, hcok, e, f⟩
+      · rw [h]; exact i0
+      · exact i0.ce a0 hc hcok hal hp (by simp) e f
+    · rename_i hp
+      have htV : t = .V := allowed_vget (by rw [hp] at htyp; exact htyp)
+      subst htV
+      split
+      · exact i0.ext [] (by simp [St.setStatus]) (uboring_nil u) rfl (by simp [St.setStatus]) rfl id (by simp [St.setStatus])
+          (by simp [St.setStatus]) (fun _ h => by simp [St.setStatus] at h) id (fun _ _ h => h)
+      · split
+        · exact i0
+        · rename_i n q _ _
+          have i1 : InvU cfg u can lg sp sp2 ({ s0 with queue := q, vres := some n } : St) :=
+            i0.ext [] (by simp) (uboring_nil u) rfl rfl rfl id id id (fun _ h => Or.inl h) id (fun _ _ h => by simp at h)
+          exact i1.finish (by simp) (fun _ => Or.inl rfl) (fun _ _ h => by simp at h)
+    · rename_i x hp
+      have htx : t = .U x := allowed_recvWait (by rw [hp] at htyp; exact htyp)
+      subst htx
+      have hxu : x ≠ u := by intro e; subst e; exact i0.nrecv hp
+      split
+      · exact i0.other_leave b0 w0 ⟨hal, Or.inr hp⟩ hxu _ _
+      · split
+        · exact i0.other_leave' b0 hxu _
+        · exact i0.other_leave' b0 hxu _
+    · rename_i x hp
+      have htx : t = .U x := allowed_loginWait (by rw [hp] at htyp; exact htyp)
+      subst htx
+      exact loginResume_U a0 b0 w0 t0 i0 x hst hp hsp0
+    · exact i0
+  · exact i0
+
+/-- a call of user task `x` starts its receive (`x = u` only for `login()`) -/
+theorem startRecv_U {s : St} {sd lo : Prop} (w : InvW s) (tt : InvT cfg sd lo s) (i : InvU cfg u can lg sp sp2 s)
+    (x : Nat) (isLogin : Bool) (hx : s.status (.U x) = .absent) (hxu : x = u → isLogin = true ∧ lg) :
+    InvU cfg u can lg sp sp2 (startRecv s x isLogin) := by
+  by_cases hu : x = u
+  · -- `u` calls `login()`
+    subst hu
+    obtain ⟨hL, hlg⟩ := hxu rfl
+    subst hL
+    have hnsp : sp2 → False := fun h => (i.spent2 h).1 hx
+    -- no `ret x _` so far
+    have hnoret : ∀ r, Obs.ret x r ∉ s.trace := fun r h => i.retst r h hx
+    -- the call ends at once with result `r`
+    have ended : ∀ (r : Res), (r = .state ∨ r = .refused) → PRet cfg x s.trace (.ret x r) → (r = .refused → s.closed = true) →
+        InvU cfg x can lg sp sp2 ((s.emit (.ret x r)).setStatus (.U x) .done) := by
+      intro r hr hP hcl
+      have hdone : ((s.emit (.ret x r)).setStatus (.U x) .done).status (.U x) = .done := by simp [St.setStatus]
+      have hmem : ∀ r', Obs.ret x r' ∈ ((s.emit (.ret x r)).setStatus (.U x) .done).trace → r' = r := by
+        intro r' h
+        have h' : Obs.ret x r' ∈ s.trace ++ [.ret x r] := h
+        rcases mem_snoc.mp h' with h' | h'
+        · exact absurd h' (hnoret r')
+        · injection h' with _ h'
+      refine ⟨i.nrecv, by rw [hdone]; intro h; simp [alive] at h, i.cont, before_snoc.mpr ⟨i.rets, hP⟩, ?_, ?_, fun _ => hlg,
+        fun _ _ => by rw [hdone]; simp, by rw [hdone]; simp, by rw [hdone]; simp, by rw [hdone]; simp, ?_, ?_,
+        fun h => absurd h hnsp⟩
+      · intro h
+        apply hcl
+        rcases h with h | h
+        · exact hmem _ h ▸ rfl
+        · have := hmem _ h; rcases hr with hr | hr <;> rw [hr] at this <;> simp at this
+      · intro h; have := hmem _ h; rcases hr with hr | hr <;> rw [hr] at this <;> simp at this
+      · intro h; have := hmem _ h; rcases hr with hr | hr <;> rw [hr] at this <;> simp at this
+      · intro _ h; have := hmem _ h; rcases hr with hr | hr <;> rw [hr] at this <;> simp at this
+    -- the call suspends / is about to resume
+    have started : ∀ (s1 : St) (st : Status), s1.trace = s.trace → s1.cstage = s.cstage → s1.closed = s.closed →
+        s1.status .L = s.status .L → s1.status .M = s.status .M →
+        (st = .ready ∧ s1.vres ≠ none ∨ st = .waitT .V ∧ s1.status .V = .ready) →
+        InvU cfg x can lg sp sp2 ((s1.setStatus (.U x) st).setProg (.U x) (.loginWait x)) := by
+      intro s1 st h1 h2 h3 h4 h5 h6
+      have hst : ((s1.setStatus (.U x) st).setProg (.U x) (.loginWait x)).status (.U x) = st := by simp [St.setStatus, St.setProg]
+      have hpr : ((s1.setStatus (.U x) st).setProg (.U x) (.loginWait x)).prog (.U x) = .loginWait x := by simp [St.setProg]
+      refine ⟨by rw [hpr]; simp, fun _ => Or.inl hpr, by show ∀ r, contOf s1.cstage = _ → _; rw [h2]; exact i.cont,
+        by show Before _ s1.trace; rw [h1]; exact i.rets, ?_, ?_, fun _ => hlg, ?_, ?_, ?_, ?_, ?_, ?_, fun h => absurd h hnsp⟩
+      · intro h
+        have h' : Obs.ret x .refused ∈ s1.trace ∨ Obs.ret x .cancelled ∈ s1.trace := h
+        rw [h1] at h'
+        rcases h' with h' | h' <;> exact absurd h' (hnoret _)
+      · intro h
+        have h' : Obs.ret x .ok ∈ s1.trace := h
+        rw [h1] at h'; exact absurd h' (hnoret _)
+      · intro r h
+        have h' : Obs.ret x r ∈ s1.trace := h
+        rw [h1] at h'; exact absurd h' (hnoret _)
+      · rw [hst]; intro h; rcases h6 with ⟨h6, _⟩ | ⟨h6, _⟩ <;> rw [h6] at h <;> simp at h
+      · rw [hst]; intro h hv
+        rcases h6 with ⟨h6, _⟩ | ⟨_, h6⟩
+        · rw [h6] at h; simp at h
+        · have hv' : s1.status .V = .cancelled := by simpa [St.setStatus, St.setProg] using hv
+          rw [h6] at hv'; simp at hv'
+      · rw [hst]; intro h _ hv
+        rcases h6 with ⟨_, h6⟩ | ⟨h6, _⟩
+        · exact absurd hv h6
+        · rw [h6] at h; simp at h
+      · intro h
+        have h' : Obs.ret x .cancelled ∈ s1.trace := h
+        rw [h1] at h'; exact absurd h' (hnoret _)
+      · intro _ h
+        have h' : Obs.ret x .ok ∈ s1.trace := h
+        rw [h1] at h'; exact absurd h' (hnoret _)
+    unfold startRecv
+    split
+    · exact i
+    · split
+      · rename_i hds
+        refine ended .state (Or.inl rfl) ?_ (by simp)
+        intro r e; injection e with _ e; subst e
+        exact ⟨by simp [okRes], by simp, fun _ => tt.dset hds⟩
+      · split
+        · exact started ({ s with queue := _, vres := some _, rcvBusy := true, imm := _ } : St) .ready rfl rfl rfl rfl rfl (Or.inl ⟨rfl, by simp⟩)
+        · split
+          · rename_i hq
+            simp only [if_true]
+            refine ended .refused (Or.inr rfl) ?_ (fun _ => w.qc hq)
+            intro r e; injection e with _ e; subst e
+            exact ⟨by simp [okRes], by simp, by simp⟩
+          · simp only [if_true]
+            exact started (({ s with rcvBusy := true } : St).spawn .V .vget) (.waitT .V) rfl rfl rfl rfl rfl (Or.inr ⟨rfl, rfl⟩)
+  · -- another user's call
+    have hne : Tid.U x ≠ Tid.U u := by intro e; injection e with e; exact hu e
+    have hneu : Tid.U u ≠ Tid.U x := fun e => hne e.symm
+    unfold startRecv
+    split
+    · exact i
+    · split
+      · exact i.ext [.ret x .state] rfl (uboring_one (ret_ne hu _)) rfl (by simp [St.setStatus, St.emit, hneu]) rfl id
+          (by simp [St.setStatus, St.emit]) (by simp [St.setStatus, St.emit]) (fun _ h => Or.inl (by simpa [St.setStatus, St.emit] using h)) id
+          (fun _ _ h => h)
+      · split
+        · exact i.ext [] (by simp [St.setStatus, St.setProg]) (uboring_nil u) (by simp [St.setStatus, St.setProg, hneu])
+            (by simp [St.setStatus, St.setProg, hneu]) rfl id (by simp [St.setStatus, St.setProg]) (by simp [St.setStatus, St.setProg])
+            (fun _ h => Or.inl (by simpa [St.setStatus, St.setProg] using h)) id (fun _ _ h => by simp [St.setStatus, St.setProg] at h)
+        · split
+          · split
+            · exact i.ext [.ret x .refused] rfl (uboring_one (ret_ne hu _)) rfl (by simp [St.setStatus, St.emit, hneu]) rfl id
+                (by simp [St.setStatus, St.emit]) (by simp [St.setStatus, St.emit]) (fun _ h => Or.inl (by simpa [St.setStatus, St.emit] using h)) id
+                (fun _ _ h => h)
+            · exact i.ext [.ret x .eoq] rfl (uboring_one (ret_ne hu _)) rfl (by simp [St.setStatus, St.emit, hneu]) rfl id
+                (by simp [St.setStatus, St.emit]) (by simp [St.setStatus, St.emit]) (fun _ h => Or.inl (by simpa [St.setStatus, St.emit] using h)) id
+                (fun _ _ h => h)
+          · exact i.ext [] (by simp [St.setStatus, St.setProg, St.spawn]) (uboring_nil u) (by simp [St.setStatus, St.setProg, St.spawn, hneu])
+              (by simp [St.setStatus, St.setProg, St.spawn, hneu]) rfl id (by simp [St.setStatus, St.setProg, St.spawn])
+              (by simp [St.setStatus, St.setProg, St.spawn]) (fun _ h => by simp [St.setStatus, St.setProg, St.spawn] at h) id (fun _ _ h => h)
+
+/-- how `task.cancel()` changes a status: not at all, or a runnable / queue-waiting task (the target, or the task the target
+    awaits) becomes cancelled -/
+theorem cancelTask_cases (s : St) (x y : Tid) :
+    (s.cancelTask x).status y = s.status y ∨
+    ((s.cancelTask x).status y = .cancelled ∧ (s.status y = .ready ∨ s.status y = .waitQ) ∧ (y = x ∨ s.status x = .waitT y)) := by
+  unfold St.cancelTask
+  split
+  · rename_i h; simp only [St.setStatus]; split
+    · rename_i e; subst e; exact Or.inr ⟨rfl, Or.inl h, Or.inl rfl⟩
+    · exact Or.inl rfl
+  · rename_i h; simp only [St.setStatus]; split
+    · rename_i e; subst e; exact Or.inr ⟨rfl, Or.inr h, Or.inl rfl⟩
+    · exact Or.inl rfl
+  · rename_i w hw
+    split
+    · rename_i h; simp only [St.setStatus]; split
+      · rename_i e; subst e; exact Or.inr ⟨rfl, Or.inl h, Or.inr hw⟩
+      · exact Or.inl rfl
+    · rename_i h; simp only [St.setStatus]; split
+      · rename_i e; subst e; exact Or.inr ⟨rfl, Or.inr h, Or.inr hw⟩
+      · exact Or.inl rfl
+    · exact Or.inl rfl
+  · exact Or.inl rfl
+
+theorem step_U {s : St} {sd lo : Prop} (a : InvA cfg s) (b : InvB s) (w : InvW s) (tt : InvT cfg sd lo s)
+    (i : InvU cfg u can lg sp sp2 s) (ev : Ev) (hev : okEv u ev) (hcan : ev = .cancel u → can) (hlg : ev = .callLogin u → lg)
+    (hsp : sp → ¬ AcceptCond s ev u) : InvU cfg u can lg sp sp2 (step cfg s ev) := by
+  cases ev with
+  | connect =>
+    simp only [step]
+    split
+    · exact i
+    · have i1 : InvU cfg u can lg sp sp2 (s.spawn .R .readerLoop) := by iu i
+      split
+      · obtain ⟨f1, f2, f3, _, f5, f6, _, f8, _⟩ := startDispatching_frame (s.spawn .R .readerLoop) cfg
+        exact i1.ext [] (by rw [f6]; simp) (uboring_nil u) (f1 _ (by simp)).2 (f1 _ (by simp)).1 (by rw [f8]) (by rw [f2]; exact id)
+          (by rw [(f1 .L (by simp)).1]; exact id) (by rw [(f1 .M (by simp)).1]; exact id)
+          (by rw [(f1 .V (by simp)).1]; exact fun _ h => Or.inl h) (by rw [f3]; exact id) (by rw [f5]; exact fun _ _ h => h)
+      · exact i1
+  | data fs => iu i
+  | eof => exact i.initiateClose
+  | run t =>
+    simp only [step]
+    split
+    · exact stepRun_U a b w tt i t hsp
+    · exact i
+  | callClose x =>
+    have hxu : x ≠ u := by intro e; subst e; exact hev.1 rfl
+    have hne : Tid.U u ≠ Tid.U x := by intro e; injection e with e; exact hxu e.symm
+    simp only [step]
+    split
+    · exact i
+    · rename_i hx
+      have hx' : s.status (.U x) = .absent := by simpa using hx
+      have b1 := b.userStart x .idle hx' rfl (by simp)
+      have a1 : InvA cfg ((s.setStatus (.U x) .ready).setProg (.U x) .idle) := InvA.of_core (s := s) rfl a
+      have i1 : InvU cfg u can lg sp sp2 ((s.setStatus (.U x) .ready).setProg (.U x) .idle) :=
+        i.ext [] (by simp [St.setStatus, St.setProg]) (uboring_nil u) (by simp [St.setStatus, St.setProg, hne])
+          (by simp [St.setStatus, St.setProg, hne]) rfl id (by simp [St.setStatus, St.setProg]) (by simp [St.setStatus, St.setProg])
+          (fun _ h => Or.inl (by simpa [St.setStatus, St.setProg] using h)) id (fun _ _ h => h)
+      exact i1.enter rfl rfl rfl rfl (c := .userTail x .ok) rfl (by intro r e; injection e with e _; exact absurd e hxu)
+        (by simp [St.setStatus, St.setProg]) (by intro e; exact absurd e.symm hne)
+        (enterClose_spec (ClosePre.of_inv a1 b1 (c := .userTail x .ok) (by simp [St.setStatus, St.setProg]) rfl) rfl)
+  | callInitiateClose => exact i.initiateClose
+  | callLogout =>
+    simp only [step]
+    apply InvU.initiateClose
+    iu i
+  | callRecv x =>
+    have hxu : x ≠ u := by intro e; subst e; exact hev.2.1 rfl
+    simp only [step]
+    split
+    · exact i
+    · rename_i hx
+      exact startRecv_U w tt i x false (by simpa using hx) (fun e => absurd e hxu)
+  | callRecvNowait x =>
+    have hxu : x ≠ u := by intro e; subst e; exact hev.2.2 rfl
+    simp only [step]
+    split
+    · exact i
+    · split
+      · exact i.ext [.ret x .state] rfl (uboring_one (ret_ne hxu _)) rfl rfl rfl id id id (fun _ h => Or.inl h) id (fun _ _ h => h)
+      · split
+        · exact i.ext [.ret x (.msg _)] rfl (uboring_one (ret_ne hxu _)) rfl rfl rfl id id id (fun _ h => Or.inl h) id (fun _ _ h => h)
+        · split
+          · exact i.ext [.ret x .eoq] rfl (uboring_one (ret_ne hxu _)) rfl rfl rfl id id id (fun _ h => Or.inl h) id (fun _ _ h => h)
+          · exact i.ext [.ret x .none] rfl (uboring_one (ret_ne hxu _)) rfl rfl rfl id id id (fun _ h => Or.inl h) id (fun _ _ h => h)
+  | callLogin x =>
+    simp only [step]
+    split
+    · exact i
+    · rename_i hx
+      simp only [bne_iff_ne, ne_eq, Bool.or_eq_true, not_or, Decidable.not_not] at hx
+      have i1 : InvU cfg u can lg sp sp2 ({ (s.emit (.write .login)) with pingL := true } : St) := by iu i
+      have w1 : InvW ({ (s.emit (.write .login)) with pingL := true } : St) := by iw w
+      have t1 : InvT cfg sd lo ({ (s.emit (.write .login)) with pingL := true } : St) :=
+        tt.emit_write .login rfl (fun _ => Or.inl (Or.inl rfl)) (by simp) (by simp)
+      exact startRecv_U w1 t1 i1 x true hx.1.1 (fun e => ⟨rfl, hlg (by rw [e])⟩)
+  | callSend => iu i
+  | cancel x =>
+    simp only [step]
+    obtain ⟨_, _, _, f4, _, f6, f7, f8, f9⟩ := cancelTask_flags s (.U x)
+    have hpr := cancelTask_prog s (.U x)
+    have hcases := cancelTask_cases s (.U x)
+    have habs : ∀ y, (s.cancelTask (.U x)).status y = .absent ↔ s.status y = .absent := by
+      intro y
+      rcases hcases y with h | ⟨h1, h2, _⟩
+      · rw [h]
+      · rw [h1]; rcases h2 with h2 | h2 <;> rw [h2] <;> simp
+    -- the target of a `cancel` is a user task, or the receive helper / a stop target it awaits: never another user task
+    have hu_status : x ≠ u → (s.cancelTask (.U x)).status (.U u) = s.status (.U u) := by
+      intro hxu
+      rcases hcases (.U u) with h | ⟨_, _, h3⟩
+      · exact h
+      · exfalso
+        rcases h3 with h3 | h3
+        · injection h3 with h3; exact hxu h3.symm
+        · rcases b.waitt _ _ h3 with ⟨pc, c, hb⟩ | ⟨_, _, hV⟩
+          · exact stageOf_user u _ (b.bwait _ pc c _ hb h3).1
+          · simp at hV
+    by_cases hxu : x = u
+    · -- the caller cancels `u`
+      subst hxu
+      have hc : can := hcan rfl
+      refine ⟨by rw [hpr]; exact i.nrecv, ?_, by rw [f9]; exact i.cont, by rw [f8]; exact i.rets, by rw [f8, f6]; exact i.failed, ?_,
+        fun h => i.called (fun e => h ((habs _).mpr e)), fun r h e => i.retst r (by rw [f8] at h; exact h) ((habs _).mp e),
+        fun _ => hc, fun _ _ => Or.inr hc, fun _ _ _ => Or.inr hc, fun _ => hc, by rw [f8]; exact i.spent1, ?_⟩
+      · rw [hpr, alive_cancelTask]; exact i.nidle
+      · rw [f8]; intro h
+        obtain ⟨a1, a2⟩ := i.hb h
+        exact ⟨fun e => a1 ((habs _).mp e), fun e => a2 ((habs _).mp e)⟩
+      · intro h
+        obtain ⟨a1, a2⟩ := i.spent2 h
+        refine ⟨fun e => a1 ((habs _).mp e), ?_⟩
+        rw [hpr]
+        refine a2.imp id ?_
+        intro hd
+        rcases hcases (.U x) with h' | ⟨_, h', _⟩
+        · rw [h', hd]
+        · rw [hd] at h'; simp at h'
+    · have hs := hu_status hxu
+      refine i.ext [] (by rw [f8]; simp) (uboring_nil u) (by rw [hpr]) hs (by rw [f9]) (by rw [f6]; exact id)
+        (fun e => (habs _).mp e) (fun e => (habs _).mp e) ?_ (by rw [f7]; exact id) (by rw [f4]; exact fun _ _ h => h)
+      intro hw hv
+      rcases hcases .V with h | ⟨_, _, h3⟩
+      · rw [h] at hv; exact Or.inl hv
+      · -- the helper is newly cancelled: by the cancellation of the (one) user that awaits it
+        right; left
+        rw [f7]
+        apply Classical.byContradiction
+        intro hq
+        have hq' : s.qClosed = false := by simpa using hq
+        obtain ⟨_, hopen⟩ := open_of_not_qClosed a hq'
+        rcases h3 with h3 | h3
+        · simp at h3
+        · have r1 : rcving s x := ⟨by rw [h3]; rfl, w.wprog x h3 hopen⟩
+          have r2 : rcving s u := ⟨by rw [hw]; rfl, w.wprog u hw hopen⟩
+          exact hxu (w.uniq x u r1 r2)
+
+theorem InvU.init (cfg : Cfg) (u : Nat) (can lg sp : Prop) : InvU cfg u can lg sp False {} :=
+  ⟨by simp, by intro h; simp [alive] at h, by intro r h; simp [contOf] at h, before_nil _, by intro h; simp at h, by intro h; simp at h,
+    by intro h; simp at h, by intro r h; simp at h, by simp, by simp, by simp, by simp, by intro _ h; simp at h, fun h => h.elim⟩
+
+/-! ### all invariants together, along a run -/
+
+
+/-- the parameters of the invariants can be weakened / re-chosen -/
+theorem InvU.weaken {can' lg' sp' sp2' : Prop} {s : St} (i : InvU cfg u can lg sp sp2 s) (hc : can → can') (hl : lg → lg')
+    (h1 : sp' → Obs.ret u .ok ∉ s.trace)
+    (h2 : sp2' → s.status (.U u) ≠ .absent ∧ (s.prog (.U u) ≠ .loginWait u ∨ s.status (.U u) = .done)) :
+    InvU cfg u can' lg' sp' sp2' s :=
+  ⟨i.nrecv, i.nidle, fun r h => (i.cont r h).imp id (fun ⟨a, b⟩ => ⟨a, hc b⟩), i.rets, i.failed, i.hb, fun h => hl (i.called h), i.retst,
+    fun h => hc (i.ncan h), fun h1' h2' => (i.vcan h1' h2').imp id hc, fun h1' h2' h3' => (i.noreply h1' h2' h3').imp id hc,
+    fun h => hc (i.rcan h), h1, h2⟩
+
+theorem InvT.weaken {sd lo sd' lo' : Prop} {s : St} (i : InvT cfg sd lo s) (h1 : sd → sd') (h2 : lo → lo') : InvT cfg sd' lo' s :=
+  ⟨i.msgd, i.quiet, i.lw, i.reply, i.dset, i.fresh, i.fw, fun h => h1 (i.sent h), fun h => h2 (i.logged h)⟩
+
+/-- the invariants A, R, B (close bookkeeping, reader, tasks), W, T (receive bookkeeping, trace) and U (login caller `u`) -/
+structure LoginInv (cfg : Cfg) (u : Nat) (sd lo can lg sp sp2 : Prop) (s : St) : Prop where
+  a : InvA cfg s
+  r : InvR s
+  b : InvB s
+  w : InvW s
+  t : InvT cfg sd lo s
+  u : InvU cfg u can lg sp sp2 s
+
+theorem LoginInv.step {sd lo : Prop} {s : St} (i : LoginInv cfg u sd lo can lg sp sp2 s) (ev : Ev) (hev : okEv u ev)
+    (hsd : ev = .callSend → sd) (hlo : ev = .callLogout → lo) (hcan : ev = .cancel u → can) (hlg : ev = .callLogin u → lg)
+    (hsp : sp → ¬ AcceptCond s ev u) : LoginInv cfg u sd lo can lg sp sp2 (step cfg s ev) :=
+  ⟨step_InvA i.a ev, step_InvR i.a i.r ev, step_InvB i.a i.r i.b ev, step_W i.a i.r i.b i.w ev, step_T i.a i.b i.w i.t ev hsd hlo,
+    step_U i.a i.b i.w i.t i.u ev hev hcan hlg hsp⟩
+
+/-- once `u` is past its receive it cannot be the task that consumes an acceptance -/
+theorem InvU.not_accept {s : St} (i : InvU cfg u can lg sp True s) (ev : Ev) : ¬ AcceptCond s ev u := by
+  rintro ⟨_, h1, h2, _⟩
+  rcases (i.spent2 trivial).2 with h | h
+  · exact h h2
+  · rw [h1] at h; simp at h
+
+/-- a run from a state that satisfies the invariants; `sp` is either impossible, or `u` is already past its receive -/
+theorem LoginInv.run {sd lo : Prop} (l : List Ev) : ∀ {s : St}, LoginInv cfg u sd lo can lg sp sp2 s → (∀ ev ∈ l, okEv u ev) →
+    (Ev.callSend ∈ l → sd) → (Ev.callLogout ∈ l → lo) → (Ev.cancel u ∈ l → can) → (Ev.callLogin u ∈ l → lg) →
+    ((sp → False) ∨ sp2) → LoginInv cfg u sd lo can lg sp sp2 (runEvs cfg s l) := by
+  induction l with
+  | nil => intro s i _ _ _ _ _ _; exact i
+  | cons ev l ih =>
+    intro s i hev hsd hlo hcan hlg hsp
+    refine ih (s := Sess.step cfg s ev) (i.step ev (hev ev (List.mem_cons_self ..)) (fun e => hsd (e ▸ List.mem_cons_self ..))
+      (fun e => hlo (e ▸ List.mem_cons_self ..)) (fun e => hcan (e ▸ List.mem_cons_self ..))
+      (fun e => hlg (e ▸ List.mem_cons_self ..)) ?_)
+      (fun e he => hev e (List.mem_cons_of_mem _ he)) (fun h => hsd (List.mem_cons_of_mem _ h))
+      (fun h => hlo (List.mem_cons_of_mem _ h)) (fun h => hcan (List.mem_cons_of_mem _ h)) (fun h => hlg (List.mem_cons_of_mem _ h)) hsp
+    intro h
+    rcases hsp with hsp | hsp
+    · exact absurd h hsp
+    · have i' : InvU cfg u can lg sp True s := by
+        have iu := i.u
+        exact ⟨iu.nrecv, iu.nidle, iu.cont, iu.rets, iu.failed, iu.hb, iu.called, iu.retst, iu.ncan, iu.vcan, iu.noreply, iu.rcan,
+          iu.spent1, fun _ => iu.spent2 hsp⟩
+      exact i'.not_accept ev
+
+theorem LoginInv.init (cfg : Cfg) (u : Nat) (sd lo can lg : Prop) : LoginInv cfg u sd lo can lg False False {} :=
+  ⟨InvA.init cfg, InvR.init, InvB.init, InvW.init, InvT.init cfg sd lo, InvU.init cfg u can lg False⟩
+
+/-- **every state reachable by an event list in which task `u` makes no call other than `login()` satisfies all invariants** -/
+theorem runEvs_LoginInv (cfg : Cfg) (u : Nat) (evs : List Ev) (h : ∀ ev ∈ evs, okEv u ev) :
+    LoginInv cfg u (Ev.callSend ∈ evs) (Ev.callLogout ∈ evs) (Ev.cancel u ∈ evs) (Ev.callLogin u ∈ evs) False False
+      (runEvs cfg {} evs) :=
+  (LoginInv.init cfg u _ _ _ _).run evs h id id id id (Or.inl id)
+
+theorem runEvs_append (cfg : Cfg) (s : St) (l1 l2 : List Ev) : runEvs cfg s (l1 ++ l2) = runEvs cfg (runEvs cfg s l1) l2 := by
+  simp [runEvs, List.foldl_append]
 
 end NasdaqModel.Sess
